@@ -34,3 +34,9 @@ LP/DriverSound.vos LP/DriverSound.vok LP/DriverSound.required_vos: LP/DriverSoun
 LP/Agree.vo LP/Agree.glob LP/Agree.v.beautified LP/Agree.required_vo: LP/Agree.v LP/DriverSound.vo LP/Unique.vo
 LP/Agree.vio: LP/Agree.v LP/DriverSound.vio LP/Unique.vio
 LP/Agree.vos LP/Agree.vok LP/Agree.required_vos: LP/Agree.v LP/DriverSound.vos LP/Unique.vos
+IO/Num.vo IO/Num.glob IO/Num.v.beautified IO/Num.required_vo: IO/Num.v 
+IO/Num.vio: IO/Num.v 
+IO/Num.vos IO/Num.vok IO/Num.required_vos: IO/Num.v 
+IO/NumSound.vo IO/NumSound.glob IO/NumSound.v.beautified IO/NumSound.required_vo: IO/NumSound.v IO/Num.vo
+IO/NumSound.vio: IO/NumSound.v IO/Num.vio
+IO/NumSound.vos IO/NumSound.vok IO/NumSound.required_vos: IO/NumSound.v IO/Num.vos
